@@ -9,7 +9,8 @@ Record request := {
   q_stack : list policy; q_script : list fn_step; q_gap : Z;
   q_ext : option (Z * err);          (* offset from the start, ctx.Err() *)
   q_key : ctxkey; q_withexec : bool; q_run : bool (* Run*: the result is discarded *);
-  q_lsn : bool * bool * bool (* which of Executor.OnSuccess / OnFailure / OnDone are registered *) }.
+  q_lsn : bool * bool * bool (* which of Executor.OnSuccess / OnFailure / OnDone are registered *);
+  q_blsn : Z (* which state-change listeners the history's breakers have: bits OnClose, OnOpen, OnHalfOpen, OnStateChanged *) }.
 
 (* an unregistered completion listener sees nothing (executor.go:274-281) *)
 Definition lsn_keeps (l : bool * bool * bool) (e : event) : bool :=
@@ -17,6 +18,13 @@ Definition lsn_keeps (l : bool * bool * bool) (e : event) : bool :=
   | KExecSuccess => fst (fst l)
   | KExecFailure => snd (fst l)
   | KExecDone => snd l
+  | _ => true
+  end.
+
+(* a breaker without a listener for an event does not log it: the tag is the low two bits of the event code *)
+Definition blsn_keeps (mask : Z) (e : event) : bool :=
+  match e_kind e with
+  | KBreaker => Z.testbit mask (e_aux e mod 4)
   | _ => true
   end.
 
@@ -64,7 +72,7 @@ Definition run_request (now : Z) (b : list (bcfg * bstate (S := stats))) (l : li
   (* hedge attempts still running go on to their end before the next request starts; their events are part of the log *)
   let w2 := drain w1 in
   let w3 := if hedge_innermost (q_stack q) then w2 else set_oof w2 in
-  ({| x_out := o; x_start := t0; x_end := w_now w1; x_events := filter (lsn_keeps (q_lsn q)) (rev (w_trace w3)); x_state := pub_state w3 |}, w3).
+  ({| x_out := o; x_start := t0; x_end := w_now w1; x_events := filter (blsn_keeps (q_blsn q)) (filter (lsn_keeps (q_lsn q)) (rev (w_trace w3))); x_state := pub_state w3 |}, w3).
 
 Fixpoint any_flagged (now : Z) (b : list (bcfg * bstate (S := stats))) (l : list (lcfg * Z * lstate))
     (k : list (Z * Z)) (c : list (list (Z * Z))) (qs : list request) : bool :=
